@@ -310,7 +310,11 @@ fn tokenize_include(
     let incpathref = Path::new(&incfilename);
     let loadresult = loader::load(incpathref);
     if let Ok(incfiledata) = loadresult {
-        tokenize_a2ml(&Filename::from(incpathref), &incfiledata)
+        // A2ML text is kept with "\n" line endings, whatever the included file uses
+        tokenize_a2ml(
+            &Filename::from(incpathref),
+            &incfiledata.replace("\r\n", "\n"),
+        )
     } else {
         Err(format!("failed reading {}", incpathref.display()))
     }
